@@ -341,7 +341,12 @@ def run_store_sim(case, repo_cls=None):
         from happysimulator.components.datastore import CacheWarmer
 
         class Proxy:
+            """the cache as the warmer sees it: every attribute is the real CachedStore's (a warmer may look at
+            backing_store, contains_cached, … of the cache it was given), get() is wrapped to log its segments"""
             n = 0
+
+            def __getattr__(self, name):
+                return getattr(cache, name)
 
             def get(self, key):
                 i = WARM0 + Proxy.n
@@ -535,7 +540,8 @@ class C16(core.Property):
             "user objects with __bool__ False or __len__ 0; none / 30 % / 60 % / all of the values of a script), for every policy × write mode; "
             "30 % of the store cases contain in-flight-window rounds (2–3 puts / deletes of ONE key started a fraction of the write latency apart so that their backing-store applications are in flight at once, "
             "the key dropped from the cache by the delete itself, an invalidate or an eviction, gets whose backing read lands before / between / exactly on / after the instants the writes are applied, then a get once all are applied); "
-            "30 % of the store cases add a CacheWarmer (0–6 keys with repeats and absent keys, 1–10 ms apart, list or callable provider) started at 0, on/next to an operation or right after an invalidate_all, running next to the client traffic; "
+            "25 % of the store cases are warm-overlap rounds (1–3 keys written, applied and invalidated; a CacheWarmer fetches them one after the other while puts / deletes / invalidates of the key being fetched start before, inside, at the ends of and after the fetch's backing-read window; then every warmed key is read); the warmer is handed the cache itself (every attribute of the real CachedStore, get() wrapped for tracing); "
+            "30 % of the remaining store cases add a CacheWarmer (0–6 keys with repeats and absent keys, 1–10 ms apart, list or callable provider) started at 0, on/next to an operation or right after an invalidate_all, running next to the client traffic; "
             "then flush and a read of every key; family softttl (same value domain): real Simulation, SoftTTLCache(soft 0–20 ms, hard soft+0–30 ms, capacity "
             "none/1/2/3 over 2–4 keys when finite), gets at entry age soft/hard ±1 ns and ± read latency, backing store rewritten/deleted behind the cache, "
             "refresh-window rounds (a stale hit starts a background refresh, misses of other keys complete inside the refresh's read latency and evict the key, or it is invalidated, before the refresh installs its value); "
@@ -782,6 +788,42 @@ class C16(core.Property):
                 ops.append([t, "invall"])
             else:
                 ops.append([t, "flush"])
+        warm_fix = None
+        if rng.random() < 0.25:
+            # warm-up overlapping client traffic on the warmed keys: the keys are in the backing store but not
+            # cached (written, applied, invalidated); the warmer fetches them one after the other (a fetch that
+            # misses reads the backing store for rl); puts / deletes / invalidates of the key being fetched start
+            # before, inside, exactly at the ends of and after that read window; then every warmed key is read.
+            # What the warmer brings in must obey the same rules as any other miss fill.
+            t += gap() + max(lat["wl"], lat["dl"]) + MS
+            wkeys = rng.sample(range(nk), rng.choice([1, 2, min(3, nk)]))
+            for k in wkeys:
+                ops.append([t, "put", k, 0])
+                t += rng.choice([MS, lat["wl"]])
+            t += max(lat["wl"], lat["cl"]) + MS
+            if rng.random() < 0.5:
+                ops.append([t, "invall"])
+            else:
+                for k in wkeys:
+                    ops.append([t, "inv", k])
+            t += MS
+            tw = t
+            rate = rng.choice([1000, 500, 200])
+            step = lat["rl"] + 10 ** 9 // rate          # fetch j starts about here when every fetch misses
+            rnd = []
+            for j, k in enumerate(wkeys):
+                base = tw + j * step
+                for _ in range(rng.choice([1, 1, 2])):
+                    d = rng.choice([0, 100_000, lat["rl"] // 2, lat["rl"] - 100_000, lat["rl"], lat["rl"] + 100_000])
+                    kind = rng.choice(["put", "put", "del", "inv"])
+                    rnd.append([base + d, kind, k, 0] if kind == "put" else [base + d, kind, k])
+            t = tw + len(wkeys) * step + max(lat["wl"], lat["dl"]) + MS
+            for k in wkeys:
+                rnd.append([t, "get", k])
+                t += MS
+            rnd.sort(key=lambda o: o[0])
+            ops.extend(rnd)
+            warm_fix = {"t": tw, "keys": wkeys, "rate": rate, "callable": int(rng.random() < 0.3)}
         # quiesce, flush, then read everything back through the cache
         t += 40 * MS
         ops.append([t, "flush"])
@@ -798,7 +840,9 @@ class C16(core.Property):
         vals = pick_vals(rng, range(1, v))
         case = {"family": "store", "policy": name, "arg": arg, "cap": cap, "wt": int(wt), "lat": lat,
                 "picks": picks, "ops": ops, "vals": vals}
-        if rng.random() < 0.3:
+        if warm_fix is not None:
+            case["warm"] = warm_fix
+        elif rng.random() < 0.3:
             # a CacheWarmer runs next to the client traffic (cold start after an invalidate_all, or any time):
             # starts on / next to an operation, keys with repeats and keys the store does not have
             tw = rng.choice([0, rng.choice(ops)[0], rng.choice(ops)[0] + rng.choice([0, 100_000, MS, lat["rl"]])])
